@@ -1,8 +1,83 @@
 import PybtexModel.Drv.Json
+import PybtexModel.Drv.C01
+import PybtexModel.Model.BibParse
+import PybtexModel.Spec.BibConfine
 open Lean
 namespace Pybtex.Drv.C10
+open Pybtex.Bib Pybtex.Drv.C01
+
+/-- ONE round of the command loop from a loop-top state: `some s'` = the loop goes on from `s'`
+(`loopStep s = .inr s'` of `Lemmas/BibTotal.lean`; `parseLoop 1` runs one round and then stops with
+the fuel marker `internal`, which no round produces itself, `C10_total`), `none` = the loop stops. -/
+def oneRound (s : St) : Option St :=
+  match parseLoop 1 s with
+  | (s', some ⟨.internal, none⟩) => some s'
+  | _ => none
+
+def sameDict (a b : CIDict Str) : Bool := a.dict == b.dict && a.keys == b.keys
+
+def sameSet : Option CISet → Option CISet → Bool
+  | none, none => true
+  | some a, some b => a.set == b.set && a.keys == b.keys
+  | _, _ => false
+
+def isRep (keys : List Str) (e : Err) : Bool :=
+  match e.kind with
+  | .repeatedEntry k => keys.any fun k' => keyFold k' = keyFold k
+  | _ => false
+
+/-- `c10case`: a (context, corruption) pair `pre ++ bad ++ post`.  Reply `out` = the two runs on the whole
+text (as `bibparse` with `both`); `cover` = the hypotheses of `C10_confined_after_partial` evaluated
+for `S` = the reader state after `pre` (its unread rest has no `@`), `bad' = S.rest ++ bad`, `post`:
+`hround hE hat hmac hun hw hK`; `selfContained` = the syntactic premise `selfContainedB bad'` of
+`C10_confined_syntactic` (`Spec/BibConfine.lean`), which implies `hE` and `hat`; `swallow` = the round that reads the malformed command in front of `post`
+consumes the first `@` of `post` (as an identifier character); and the conclusion of the theorem: the entries / preamble items the
+theorem predicts for the run on the whole text (`S1` followed by what the run on `post` alone from
+`S` adds). -/
+def c10case (j : Json) : Except String Json := do
+  let pre ← getStr j "pre"
+  let bad ← getStr j "bad"
+  let post ← getStr j "post"
+  let wanted ← match j.getObjVal? "wanted" with
+    | .ok (Json.arr a) => do
+      let l ← a.toList.mapM jsonToStr
+      pure (some l)
+    | _ => pure none
+  let text := pre ++ bad ++ post
+  let out := obj [("capture", resultPosJ text (parseBib text false wanted)),
+                  ("strict", resultPosJ text (parseBib text true wanted))]
+  let S := (parseBib pre false wanted).1
+  let preOk := (parseBib pre false wanted).2.isNone && S.errs.all fun e => e.kind ≠ .prematureEOF
+  let bad1 := S.rest ++ bad
+  -- does the round that reads the malformed command, in front of `post`, consume the first `@` of `post`?
+  let p := (post.takeWhile (· ≠ '@')).length
+  let swallow := bad1.contains '@' && post.contains '@' &&
+    decide ((parseLoop 1 { S with rest := bad1 ++ post }).1.rest.length < post.length - p)
+  let cover : Json :=
+    match oneRound { S with rest := bad1 } with
+    | none => obj [("covered", Json.bool false), ("hround", Json.bool false), ("swallow", Json.bool swallow),
+                   ("selfContained", Json.bool (selfContainedB bad1))]
+    | some S1 =>
+      let hE := (S1.errs.drop S.errs.length).all fun e => e.kind ≠ .prematureEOF
+      let hat := !S1.rest.contains '@'
+      let hmac := sameDict S1.macros S.macros
+      let hun := S1.unnamed == S.unnamed
+      let hw := sameSet S1.db.wanted S.db.wanted
+      let A := parseLoop ((bad1 ++ post).length + 1) { S with rest := bad1 ++ post }
+      let B := parseLoop (post.length + 1) { S with rest := post }
+      let newKeys := (S1.db.entries.drop S.db.entries.length).map (·.key)
+      let hK := !(A.1.errs.drop S1.errs.length).any (isRep newKeys) &&
+                !(match A.2 with | some e => isRep newKeys e | none => false)
+      let covered := preOk && hE && hat && hmac && hun && hw && hK
+      obj [("covered", Json.bool covered), ("hround", Json.bool true), ("swallow", Json.bool swallow),
+           ("selfContained", Json.bool (selfContainedB bad1)), ("preOk", Json.bool preOk), ("hE", Json.bool hE),
+           ("hat", Json.bool hat), ("hmac", Json.bool hmac), ("hun", Json.bool hun), ("hw", Json.bool hw), ("hK", Json.bool hK),
+           ("entries", arr ((S1.db.entries ++ B.1.db.entries.drop S.db.entries.length).map entryJ)),
+           ("preamble", strs (S1.db.preamble ++ B.1.db.preamble.drop S.db.preamble.length)),
+           ("npre", nat S.db.entries.length), ("nbad", nat (S1.db.entries.length - S.db.entries.length))]
+  pure (obj [("out", out), ("cover", cover)])
 
 /-- driver ops of this property: (op name, handler) -/
-def handlers : List (String × (Json → Except String Json)) := []
+def handlers : List (String × (Json → Except String Json)) := [("c10case", c10case)]
 
 end Pybtex.Drv.C10
